@@ -95,11 +95,12 @@ static void proj(LHAReader *r)
 {
 	LhasaVerifReaderState st;
 	lhasa_verif_reader_project(r, &st);
-	printf(",\"proj\":{\"ctype\":\"%s\",\"cur\":\"%s\",\"curRefs\":%u,\"bcur\":\"%s\",\"bRefs\":%u,\"rem\":%zu,\"beof\":%s,\"dec\":%s,\"inner\":%s,\"stack\":[",
+	printf(",\"proj\":{\"ctype\":\"%s\",\"cur\":\"%s\",\"curRefs\":%u,\"bcur\":\"%s\",\"bRefs\":%u,\"rem\":%zu,\"beof\":%s,\"dec\":%s,\"inner\":%s,\"pol\":\"%s\",\"stack\":[",
 	       ctn[st.curr_file_type], st.curr_file ? idof(st.curr_file) : "", st.curr_file ? st.curr_file->_refcount : 0,
 	       st.basic_curr ? idof(st.basic_curr) : "", st.basic_curr ? st.basic_curr->_refcount : 0,
 	       st.basic_remaining > 2000000000u ? 2000000000u : st.basic_remaining,
-	       st.basic_eof ? "true" : "false", st.decoder_open ? "true" : "false", st.inner_decoder_open ? "true" : "false");
+	       st.basic_eof ? "true" : "false", st.decoder_open ? "true" : "false", st.inner_decoder_open ? "true" : "false",
+	       st.dir_policy == LHA_READER_DIR_PLAIN ? "plain" : st.dir_policy == LHA_READER_DIR_END_OF_FILE ? "eof" : st.dir_policy == LHA_READER_DIR_END_OF_DIR ? "eod" : "?");
 	for (unsigned i = 0; i < st.n_dir_stack; i++) printf("%s[\"%s\",%u]", i ? "," : "", idof(st.dir_stack[i]), st.dir_stack[i]->_refcount);
 	printf("],\"deferred\":[");
 	for (unsigned i = 0; i < st.n_deferred; i++) printf("%s[\"%s\",%u]", i ? "," : "", idof(st.deferred[i]), st.deferred[i]->_refcount);
